@@ -219,8 +219,10 @@ Definition is_output (i : inst) (b : bid) : bool :=
 
 Definition job_is_done (i : inst) (jb : job) : bool := all_operations_done jb && is_output i (j_loc jb).
 
-(* core_utils.is_done: every job located in an OUTPUT buffer *)
-Definition all_in_output (i : inst) (x : state) : bool := forallb (fun jb => is_output i (j_loc jb)) (s_jobs x).
+(* core_utils.is_done: every job located in an OUTPUT buffer with all its operations done (fix 7fd110d: before,
+   the location alone decided) *)
+Definition all_in_output (i : inst) (x : state) : bool :=
+  forallb (fun jb => is_output i (j_loc jb) && all_operations_done jb) (s_jobs x).
 
 Definition first_output (i : inst) : option nat :=
   find_idx (fun c => match bc_role c with ROutput => true | _ => false end) (i_bufs i).
